@@ -59,6 +59,7 @@ type Loop struct {
 	Cond  ast.Expr // other condition
 	Body  []Node
 	Fn    *FuncCtx
+	AllOf ast.Expr // synthetic (matcher): the loop visits every entry of this hash table's owner (bucket loop x chain loop)
 }
 
 // Call: the stream is handed to another function.
